@@ -16,11 +16,11 @@ CLAIMED = {
          "unknown codes and malformed / out-of-range / truncated extended forms are ignored while consuming exactly the parameters the documented parser consumes -- for "
          "parameter lists of ANY length and any u32 values; nothing but cursor.attr changes (no cell, whole-state frame) and its text stays a space. The five name tables and "
          "the 256-entry palette of src/graphics.rs are verified entry by entry on their initialiser blocks (xterm cube/grey formulas as an independent spec). CharOpts::to_map "
-         "is verified; CharOpts::update_from_map is ASSUMED (applies a string map read by key text); hex rendering by format! is uninterpreted (hex6). "
+         "and CharOpts::update_from_map are verified (the map applied pair by pair equals the map read by key text, for every iteration order); hex rendering by format! is uninterpreted (hex6). "
          "Routing of `CSI ... m` to the function with the whole list: Kani dispatch harness.",
     design="5 C08", technique="Verus contracts: recursive spec fold + loop invariant on the verbatim body (15-way case split of the loop body), verified initialiser blocks of the lazy_static tables",
     note="As the general note, plus: HashMap<String,String> is read by key text through two std axioms (String key model, String extensionality); insert/extend go through verified wrappers; "
-         "ASSUMED: CharOpts::update_from_map's contract, `format!(\"{:02x}{:02x}{:02x}\")` = hex6, a lazy_static deref yields its initialiser's value, slice to_vec/reverse, HashMap::extend = right-biased union."),
+         "ASSUMED: HashMap::into_iter yields every entry exactly once, parse::<bool> is true exactly for \"true\", `format!(\"{:02x}{:02x}{:02x}\")` = hex6, a lazy_static deref yields its initialiser's value, slice to_vec/reverse, HashMap::extend = right-biased union."),
  'C05': dict(
     text="Deductive proof, for all geometries <= 65535^2, all cursor positions incl. pending wrap, all margins, DECOM on/off and all "
          "parameters in {absent} U [0,9999], that each of cursor_up/down/forward/back/up1/down1/to_column/to_line/position, backspace and "
